@@ -449,7 +449,8 @@ class NPGetText(BaseTranslateFilter, TranslatableFilter):
 
 
 def _count(val: Any) -> Optional[int]:
-    if val in (None, False, True):
+    # Note that `0 in (None, False, True)` is true. A count of zero is a count.
+    if val is None or isinstance(val, bool):
         return None
     try:
         return int(val)
